@@ -232,7 +232,11 @@ pub fn pty_fault_cases(rng: &mut Rng, rep: &mut Report) {
                     continue;
                 }
                 if pending == 0 || t0.elapsed().as_secs() > 40 {
-                    // drained (or giving up): hang up, the reader's next read fails with EIO
+                    // drained (or giving up): give the reader a moment to block in its next read,
+                    // then hang up. A read that is blocked at that moment fails with EIO; a read
+                    // that starts after the hang-up sees end-of-file instead - both are legitimate
+                    // and both are accepted below.
+                    std::thread::sleep(std::time::Duration::from_millis(60));
                     unsafe { libc::close(master) };
                     break pending;
                 }
@@ -265,15 +269,17 @@ pub fn pty_fault_cases(rng: &mut Rng, rep: &mut Report) {
         rep.eval(format!("special/pty-eio/{}", name));
         match r {
             Ok((res, count, digest)) => {
+                rep.seen("pty_outcomes", if res.is_ok() { "end-of-file" } else { "error" });
                 let mut all = before_prefix.clone();
                 all.extend_from_slice(&payload);
                 let want = specmodel::hash(&mode, &all);
                 if pending != 0 {
                     rep.inconclusive.push(format!("pty fault case ({}): the input queue was never drained", name));
-                } else if res.is_ok() {
-                    rep.violation("C11/special/pty-eio/error-swallowed", format!("{} on a pty slave whose master was closed after {} bytes returned Ok", name, n), vec!["c11".into(), "--files-only".into(), "1".into()]);
                 } else if count != all.len() as u64 || digest != want {
-                    rep.violation(format!("C11/special/pty-eio/{}/state-after-error", name), format!("{} on a file that yielded {} bytes and then failed with {:?}: afterwards count() = {} (expected {} = {} before the call + {} yielded) and finalize() = {} (the bytes absorbed hash to {})", name, n, res, count, all.len(), before_prefix.len(), n, hex(&digest), hex(&want)), vec!["c11".into(), "--files-only".into(), "1".into()]);
+                    // whether the call ended with EIO (read blocked at hang-up) or with end-of-file
+                    // (read started after it), the hasher must hold the prefix and all delivered bytes
+                    rep.seen("pty_outcomes", if res.is_ok() { "end-of-file" } else { "error" });
+                    rep.violation(format!("C11/special/pty-eio/{}/state-after-error", name), format!("{} on a file that yielded {} bytes and then ended with {:?}: afterwards count() = {} (expected {} = {} before the call + {} yielded) and finalize() = {} (the bytes absorbed hash to {})", name, n, res, count, all.len(), before_prefix.len(), n, hex(&digest), hex(&want)), vec!["c11".into(), "--files-only".into(), "1".into()]);
                 }
             }
             Err(p) => rep.violation("C11/special/pty-eio/panic", format!("{}: {}", name, p), vec!["c11".into(), "--files-only".into(), "1".into()]),
